@@ -166,6 +166,17 @@ class PropertyCheck:
         solve.discharge(allobs)
         for rep in self.reports:
             self.judge_report(rep, baseline)
+        if self.spec.get("post_scan") == "no_cursor_precondition":
+            # C11: no view contract may assume anything about the shared substream's cursor
+            bad = []
+            for key in keys:
+                con = REGISTRY.get(key)
+                for (lbl, text) in (con.requires_ if con else []):
+                    if "substream.cur" in text or ".cur" in text.replace("self.substream.content", ""):
+                        bad.append(f"{key}:{lbl}")
+            self.scan = {"no_cursor_precondition": {"contracts_scanned": len(keys), "offending": bad}}
+            if bad:
+                self.checker_errors.append("contracts assume a substream cursor: " + ", ".join(bad))
         # bounded stand-ins
         from concurrent.futures import ThreadPoolExecutor
         todo = []
@@ -495,6 +506,7 @@ class PropertyCheck:
             "canaries": self.canaries,
             "known_findings_reported": [k["id"] for k in self.known],
             "not_covered": self.spec.get("not_covered", []),
+            "scans": getattr(self, "scan", {}),
         }
         if self.bounded:
             cov["evaluations"] = sum(b["evaluations"] for b in self.bounded)
